@@ -255,15 +255,17 @@ def build_harness(binname, log, features=None, toolchain=None, nightly=False):
 # harness flushes each answer, so the number of answers received identifies the request, which is answered `TIMEOUT`
 # (never allowed by any spec -> reported as a violation with that request as the replay).  After the first timeout the
 # limit drops, and after a few more the remaining requests of that binary are skipped.
-TIMEOUTS = {"first": float(os.environ.get("VERIF_CHUNK_TIMEOUT", "420")), "later": 30.0, "max": 4}
+TIMEOUTS = {"first": float(os.environ.get("VERIF_CHUNK_TIMEOUT", "420")), "later": 60.0, "max": 4,
+            "single": float(os.environ.get("VERIF_SINGLE_TIMEOUT", "300")), "single_later": 60.0}
 _timeouts_seen = {}
 
 
-def run_lines(exe, lines, cwd=None):
+def run_lines(exe, lines, cwd=None, limit="auto"):
     inp = "\n".join(lines) + "\n"
     seen = _timeouts_seen.get(exe, 0)
     is_crate = os.sep + "harness" + os.sep in exe
-    limit = None if not is_crate else (TIMEOUTS["first"] if seen == 0 else TIMEOUTS["later"])
+    if limit == "auto":
+        limit = None if not is_crate else (TIMEOUTS["first"] if seen == 0 else TIMEOUTS["later"])
     try:
         p = subprocess.run([exe], input=inp, capture_output=True, text=True, cwd=cwd, timeout=limit)
         stdout, rc, timed_out = p.stdout, p.returncode, False
@@ -299,7 +301,17 @@ def run_chunked(exe, lines, chunk=20000):
             res += out
             i += len(part)
         else:
-            res += out[:k] + [out[k]]
+            ans = out[k]
+            if ans == "TIMEOUT":
+                # slow or hung?  The limit was on the whole chunk, and on a busy machine (or with the unoptimised
+                # all-widths bins) a chunk of legitimate requests can exceed it.  Only a request that does not return
+                # when it is run ALONE, with a generous limit of its own, is answered TIMEOUT.
+                seen = _timeouts_seen.get(exe, 1)
+                single, _ = run_lines(exe, [part[k]], limit=TIMEOUTS["single"] if seen <= 1 else TIMEOUTS["single_later"])
+                ans = single[0]
+                # `seen` already counts the chunk's timeout: a confirmed hang is counted once, a disproved one not at all
+                _timeouts_seen[exe] = seen if ans in ("TIMEOUT", "ABORT") else max(0, seen - 1)
+            res += out[:k] + [ans]
             i += k + 1
     return res
 
